@@ -2,12 +2,13 @@
 from __future__ import annotations
 
 import ast
+import re
 from typing import Dict, List, Optional, Tuple
 
 from sa.formula import Formula, Unrecognised
 from sa.paths import Path, U, strip_v
 from sa.report import Ctx
-from rules.common import S, enum_paths, fact_where
+from rules.common import appends, S, enum_paths, fact_where
 
 OM = "evaluation.matching.object_matching."
 E, G = "estimated_object", "ground_truth_object"
@@ -187,6 +188,18 @@ def rule_plane(ctx: Ctx, frame_only: bool = False) -> None:
         ctx.require(p.exit == ("return",) and p.retval is not None, "PlaneDistanceMatching: box path does not return")
         t = S(p.retval)
         GD = GD_RAW if base else GD_TF
+        pat = None
+        if not base and f"np.argsort({GD})" not in t:
+            # the same ranking with the transformed corners collected by an append loop instead of a comprehension
+            for e in p.effects:
+                if e.kind == "loop" and S(e.text) == GF:
+                    cv = U(e.node.target)
+                    for bp in e.body:
+                        ap = appends(bp)
+                        if len(ap) == 1 and not bp.conds and S(ap[0].args[0]) == f"transforms.transform(({G}.frame_id,FrameID.BASE_LINK),{cv})":
+                            lst = ap[0].recv
+                            pat = re.compile(r"np\.linalg\.norm\(np\.array\(" + re.escape(lst) + r"(@\d+)?\)\[:,:2\],axis=1\)")
+                            t = pat.sub(GD_TF, strip_v(t) if False else t)
         has_rank = f"np.argsort({GD})" in t
         ctx.check(has_rank, "R-FRAME", "PlaneDistanceMatching", "ego-ranking" if base else "transformed-ranking",
                   f"the nearest side is chosen by `{_rank_text(t)[:200]}`; for {'an ego-frame' if base else 'a non-ego'} ground truth the corners must be ranked by their "
@@ -215,7 +228,7 @@ def rule_plane(ctx: Ctx, frame_only: bool = False) -> None:
                   f"plane distance is `{a[:260]}`; definition: sqrt(0.5 * (d_left^2 + d_right^2)) between the corresponding corners (same ranking IDX and same left/right indices for estimate and ground truth, the two nearest GT corners)",
                   fi=fi, expected=spec, found=a[:300], sample={"plane_distance": a[:160]})
         # the stored NN planes are the same corner pairs
-        st = {strip_v(e.recv): _abbrev(S(e.value), table) for e in p.effects if e.kind == "store"}
+        st = {strip_v(e.recv): _abbrev(pat.sub(GD_TF, S(e.value)) if pat is not None else S(e.value), table) for e in p.effects if e.kind == "store"}
         ctx.check(st.get("self.ground_truth_nn_plane") == "(GP[LR[0]],GP[LR[1]])" and st.get("self.estimated_nn_plane") == "(EP[LR[0]],EP[LR[1]])", "C06-plane", "PlaneDistanceMatching",
                   f"nn-planes:{'ego' if base else 'tf'}", f"stored NN planes are {st.get('self.ground_truth_nn_plane', '?')[:60]} / {st.get('self.estimated_nn_plane', '?')[:60]}", fi=fi)
     ctx.require({"ego", "tf"} <= rows, f"PlaneDistanceMatching: branches {sorted(rows)} – expected ego and transformed")
